@@ -64,14 +64,16 @@ SUMMARIZE_DEFAULTS = {
 
 # For Bornhuetter-Ferguson method weighting
 SUMMARIZE_DEFAULTS |= {
-    f"{flavor}_loss_developed": lambda vd: _conforming_sum(
+    f"{flavor}_loss_developed": lambda vd, flavor=flavor: _conforming_sum(
         vd[f"{flavor}_loss_developed"]
     )
     for flavor in ["incurred", "paid", "reported"]
 }
 
 SUMMARIZE_DEFAULTS |= {
-    f"{flavor}_loss_prior": lambda vd: _conforming_sum(vd[f"{flavor}_loss_prior"])
+    f"{flavor}_loss_prior": lambda vd, flavor=flavor: _conforming_sum(
+        vd[f"{flavor}_loss_prior"]
+    )
     for flavor in ["incurred", "paid", "reported"]
 }
 
